@@ -475,6 +475,12 @@ theorem C18_lz4_format_examples :
     (lz4BlockDecode [0x11, 0x41, 0x01, 0x00] 7).toOption = none ∧
     (lz4BlockDecode [0xF0, 0xFF, 0xFF] 1000).toOption = none := by decide
 
+/-- the one ending on which decoders differ: a LAST sequence without literals (token `00` right after a
+    match, or alone). The format's decoder accepts it (the block ends after its last match); pierrec's
+    amd64 decoder answers an error, its pure-Go decoder accepts (props `partial`; op `lz4blk` skips them). -/
+example : (lz4BlockDecode [0x11, 0x41, 0x01, 0x00, 0x00] 6).toOption = some [0x41, 0x41, 0x41, 0x41, 0x41, 0x41] ∧
+    (lz4BlockDecode [0x00] 6).toOption = some [] := by decide
+
 /-- FULL STATEMENT ("a corrupt compressed body yields an error") for the detectable corruption "match
     offset 0": holds for the format's decoder — kernel-checked on the block that pierrec/lz4 v4.1.8's
     amd64 decoder ACCEPTS (it copies 8 not-yet-written destination bytes: zeros through lz4.go);
@@ -1224,6 +1230,66 @@ example : runHist .perConn (some "snappy") none
 theorem C18_cex_cached_supported :
     (runHist .cached (some "snappy") none [[("COMPRESSION", ["snappy", "lz4"])], [("COMPRESSION", ["lz4"])]])[1]?
       = some ⟨false, ⟨true, some "snappy"⟩⟩ ∧
+    "snappy" ∉ lookup [("COMPRESSION", ["lz4"])] "COMPRESSION" := by
+  decide
+
+/-! ### negotiation is a function of THIS connection's host
+
+FULL STATEMENT: in one session over several hosts whose SUPPORTED sets differ (and change), every
+connection negotiates against what ITS host advertises on THAT connection: a host that does not list
+the configured compressor is NOT refused — the connection is established, its STARTUP carries no
+COMPRESSION and all its frames are uncompressed — while connections of the same session to hosts
+that list it are compressed; nothing carries over from one host to another. Holds for the code that
+exists; refuted for a session-wide cache of the first answer (`C18_cex_session_cached_supported`). -/
+
+theorem runHosts_perConn (name : Option String) (st : Option Supported) (conns : List (Nat × Supported)) :
+    runHosts .perConn name st conns =
+      conns.map (fun c => (c.1, ({ optionsSent := true, nego := negotiate name c.2 } : ConnObs))) := by
+  induction conns generalizing st with
+  | nil => rfl
+  | cons a rest ih => obtain ⟨h, adv⟩ := a; simp [runHosts, connect, ih]
+
+/-- **Negotiation per host.** For every configured compressor name, every history of connections of
+    one session (any hosts, any advertisements, in any order) and whatever was seen before: the i-th
+    connection belongs to its host, sends OPTIONS, negotiates exactly `negotiate name adv` for what THAT
+    host advertises on it; it keeps the compressor iff the name is in that set; and when it does not,
+    every request on it (framer `newFramer none`) has the compress bit clear and the body verbatim. -/
+theorem C18_negotiation_per_host (name : Option String) (st : Option Supported)
+    (conns : List (Nat × Supported)) (i h : Nat) (o : ConnObs) (h' : Nat) (adv : Supported)
+    (ho : (runHosts .perConn name st conns)[i]? = some (h, o)) (ha : conns[i]? = some (h', adv)) :
+    h = h' ∧ o.optionsSent = true ∧ o.nego = negotiate name adv ∧
+    (o.nego.keep = true ↔ ∃ n, name = some n ∧ n ∈ lookup adv "COMPRESSION") ∧
+    (o.nego.keep = false → o.nego.startupOpt = none ∧
+      ∀ version extra r s body wire, extra &&& 1 = 0 →
+        (connFramer none version extra).buildReq r s body = .ok wire →
+        wire.getD 1 0 &&& flagCompress ≠ flagCompress ∧ wire.drop (newFramer none version).headSize = body) := by
+  rw [runHosts_perConn, List.getElem?_map, ha] at ho
+  simp only [Option.map_some, Option.some.injEq, Prod.mk.injEq] at ho
+  obtain ⟨rfl, rfl⟩ := ho
+  refine ⟨rfl, rfl, rfl, ?_, ?_⟩
+  · cases name with
+    | none => simp [negotiate]
+    | some m => by_cases hm : m ∈ lookup adv "COMPRESSION" <;> simp [negotiate, hm]
+  · intro hk
+    refine ⟨?_, fun version extra r s body wire hx hb => (C18_negotiation none []).2.2 version extra r s body wire hx hb⟩
+    cases name with
+    | none => simp [negotiate]
+    | some m =>
+      by_cases hm : m ∈ lookup adv "COMPRESSION"
+      · simp [negotiate, hm] at hk
+      · simp [negotiate, hm]
+
+example : runHosts .perConn (some "snappy") none
+      [(0, [("COMPRESSION", ["snappy", "lz4"])]), (1, [("COMPRESSION", ["lz4"])]), (2, []), (0, [("COMPRESSION", ["snappy"])])]
+    = [(0, ⟨true, ⟨true, some "snappy"⟩⟩), (1, ⟨true, ⟨false, none⟩⟩), (2, ⟨true, ⟨false, none⟩⟩), (0, ⟨true, ⟨true, some "snappy"⟩⟩)] := by
+  decide
+
+/-- the session-wide cache violates it: host 0 lists snappy, host 1 lists lz4 only; the connection to
+    host 1 sends no OPTIONS and asks for snappy, which host 1 never advertised. Also the replay history
+    for the real code (op `negom snappy 1 2 a0=COMPRESSION=snappy a1=COMPRESSION=lz4 s`). -/
+theorem C18_cex_session_cached_supported :
+    (runHosts .cached (some "snappy") none [(0, [("COMPRESSION", ["snappy"])]), (1, [("COMPRESSION", ["lz4"])])])[1]?
+      = some (1, ⟨false, ⟨true, some "snappy"⟩⟩) ∧
     "snappy" ∉ lookup [("COMPRESSION", ["lz4"])] "COMPRESSION" := by
   decide
 
